@@ -552,12 +552,156 @@ class _CanonicalBlocks(ast.NodeTransformer):
         return node
 
 
+class _CanonicalExprs(ast.NodeTransformer):
+    """More spellings of one program reduced to one form (each switchable
+    through VERIF_CANON_EXPR, letters below):
+
+    i  `isinstance(x, A) or isinstance(x, B)` (same plain operand)
+       ->  `isinstance(x, (A, B))`;
+    n  `if a: if b: BODY` (no else on either, nothing else in the outer
+       body)  ->  `if a and b: BODY`;
+    a  `if T: v = A` / `else: v = B` (one plain name, single statements)
+       ->  `v = A if T else B`;
+    r  `if T: return A` directly followed by `return B`
+       ->  `return A if T else B`."""
+
+    def __init__(self, modes: str) -> None:
+        self.modes = modes
+        self.count = 0
+
+    def visit_BoolOp(self, node: ast.BoolOp) -> ast.AST:
+        self.generic_visit(node)
+        if "i" not in self.modes or not isinstance(node.op, ast.Or):
+            return node
+        out: List[ast.expr] = []
+        for v in node.values:
+            if out and self._isinst(v) and self._isinst(out[-1]) and \
+                    ast.dump(v.args[0]) == ast.dump(out[-1].args[0]) and \
+                    _simple(v.args[0]):
+                prev = out[-1]
+                a = prev.args[1]
+                b = v.args[1]
+                elts = (list(a.elts) if isinstance(a, ast.Tuple) else [a]) + \
+                    (list(b.elts) if isinstance(b, ast.Tuple) else [b])
+                prev.args[1] = ast.copy_location(
+                    ast.Tuple(elts=elts, ctx=ast.Load()), a)
+                self.count += 1
+            else:
+                out.append(v)
+        if len(out) == 1:
+            return out[0]
+        node.values = out
+        return node
+
+    @staticmethod
+    def _isinst(v: ast.AST) -> bool:
+        return isinstance(v, ast.Call) and isinstance(v.func, ast.Name) and \
+            v.func.id == "isinstance" and len(v.args) == 2 and \
+            not v.keywords
+
+    def visit_If(self, node: ast.If) -> ast.AST:
+        self.generic_visit(node)
+        if "n" in self.modes and not node.orelse and \
+                len(node.body) == 1 and isinstance(node.body[0], ast.If) \
+                and not node.body[0].orelse:
+            inner = node.body[0]
+            vals = (list(node.test.values) if isinstance(node.test, ast.BoolOp)
+                    and isinstance(node.test.op, ast.And) else [node.test]) \
+                + (list(inner.test.values)
+                   if isinstance(inner.test, ast.BoolOp) and
+                   isinstance(inner.test.op, ast.And) else [inner.test])
+            node.test = ast.copy_location(
+                ast.BoolOp(op=ast.And(), values=vals), node.test)
+            node.body = inner.body
+            self.count += 1
+            return node
+        if "a" in self.modes and len(node.body) == 1 and \
+                len(node.orelse) == 1 and \
+                all(isinstance(x, ast.Assign) and len(x.targets) == 1 and
+                    isinstance(x.targets[0], ast.Name)
+                    for x in (node.body[0], node.orelse[0])) and \
+                node.body[0].targets[0].id == node.orelse[0].targets[0].id:
+            self.count += 1
+            return ast.copy_location(ast.Assign(
+                targets=[node.body[0].targets[0]],
+                value=ast.IfExp(test=node.test, body=node.body[0].value,
+                                orelse=node.orelse[0].value)), node)
+        return node
+
+    def _split(self, stmts: List[ast.stmt]) -> List[ast.stmt]:
+        """R  `return A if T else B`  ->  `if T: return A` + `return B`;
+        A  `v = A if T else B` (plain name) -> `if T: v = A` / `else: v = B`
+        (the statement forms are the ones this tree uses)."""
+        out: List[ast.stmt] = []
+        for st in stmts:
+            if "R" in self.modes and isinstance(st, ast.Return) and \
+                    isinstance(st.value, ast.IfExp):
+                e = st.value
+                out.append(ast.copy_location(ast.If(
+                    test=e.test, body=[ast.copy_location(
+                        ast.Return(value=e.body), st)], orelse=[]), st))
+                out.append(ast.copy_location(ast.Return(value=e.orelse), st))
+                self.count += 1
+            elif "A" in self.modes and isinstance(st, ast.Assign) and \
+                    len(st.targets) == 1 and \
+                    isinstance(st.targets[0], ast.Name) and \
+                    isinstance(st.value, ast.IfExp):
+                e = st.value
+                out.append(ast.copy_location(ast.If(
+                    test=e.test,
+                    body=[ast.copy_location(ast.Assign(
+                        targets=[ast.Name(id=st.targets[0].id,
+                                          ctx=ast.Store())],
+                        value=e.body), st)],
+                    orelse=[ast.copy_location(ast.Assign(
+                        targets=[ast.Name(id=st.targets[0].id,
+                                          ctx=ast.Store())],
+                        value=e.orelse), st)]), st))
+                self.count += 1
+            else:
+                out.append(st)
+        return out
+
+    def _block(self, stmts: List[ast.stmt]) -> List[ast.stmt]:
+        if "R" in self.modes or "A" in self.modes:
+            stmts = self._split(stmts)
+        if "r" not in self.modes:
+            return stmts
+        out: List[ast.stmt] = []
+        for st in stmts:
+            if isinstance(st, ast.Return) and st.value is not None and out \
+                    and isinstance(out[-1], ast.If) and not out[-1].orelse \
+                    and len(out[-1].body) == 1 and \
+                    isinstance(out[-1].body[0], ast.Return) and \
+                    out[-1].body[0].value is not None:
+                prev = out.pop()
+                out.append(ast.copy_location(ast.Return(value=ast.IfExp(
+                    test=prev.test, body=prev.body[0].value,
+                    orelse=st.value)), prev))
+                self.count += 1
+                continue
+            out.append(st)
+        return out
+
+    def generic_visit(self, node: ast.AST) -> ast.AST:
+        super().generic_visit(node)
+        for field in ("body", "orelse", "finalbody"):
+            val = getattr(node, field, None)
+            if isinstance(val, list) and val and \
+                    isinstance(val[0], ast.stmt):
+                setattr(node, field, self._block(val))
+        return node
+
+
 def normalise(relpath: str, tree: ast.Module) -> List[str]:
     """Inline unknown private helpers of ``tree`` in place; returns a log."""
     mode = os.environ.get("VERIF_CANON_IF", "2")
     if mode != "0":
         c = _CanonicalIf(mode == "2")
         c.visit(tree)
+    emode = os.environ.get("VERIF_CANON_EXPR", "inR")
+    if emode and emode != "0":
+        _CanonicalExprs(emode).visit(tree)
     bmode = os.environ.get("VERIF_CANON_BLOCKS", "et")
     if bmode != "0":
         _CanonicalBlocks("e" in bmode, "t" in bmode).visit(tree)
